@@ -9,7 +9,7 @@ from spsdk.crypto.crypto_types import SPSDKEncoding
 from spsdk.crypto.keys import ECDSASignature, EccCurve
 from spsdk.exceptions import SPSDKValueError
 
-inline("spsdk.crypto.keys:ECDSASignature.__init__", "spsdk.crypto.keys:ECDSASignature.parse", "spsdk.crypto.keys:ECDSASignature.get_encoding",
+inline("spsdk.crypto.keys:PublicKeyRsa.recreate_public_numbers", "spsdk.crypto.keys:ECDSASignature.__init__", "spsdk.crypto.keys:ECDSASignature.parse", "spsdk.crypto.keys:ECDSASignature.get_encoding",
        "spsdk.crypto.keys:ECDSASignature.get_ecc_curve")
 CS = {EccCurve.SECP256R1: 32, EccCurve.SECP384R1: 48, EccCurve.SECP521R1: 66}
 
@@ -33,3 +33,99 @@ def _(curve: OneOf(EccCurve.SECP256R1, EccCurve.SECP384R1, EccCurve.SECP521R1), 
     requires(r < 2 ** (8 * CS[curve]) and s < 2 ** (8 * CS[curve]))
     let(back=ECDSASignature.parse(ECDSASignature(r, s, curve).export(SPSDKEncoding.NXP)))
     ensures(back.r == r and back.s == s and back.ecc_curve == curve, label="parse-of-export-is-identity")
+
+
+# ---- raw (NXP) public keys: fixed-width X || Y, modulus || exponent, and the way back --------------------------------------------
+from spsdk.crypto.keys import PublicKeyEcc, PublicKeyRsa, SPSDKUnsupportedEccCurve  # noqa: E402
+from spsdk.exceptions import SPSDKError  # noqa: E402
+
+concrete_ok("spsdk.crypto.keys:KeyEccCommon._get_ec_curve_object")
+KS = {EccCurve.SECP256R1: 256, EccCurve.SECP384R1: 384, EccCurve.SECP521R1: 521}
+
+
+def ECCPUB(curve):
+    cs = CS[curve]
+    return Obj(PublicKeyEcc, x=Range(0, (1 << KS[curve]) - 1), y=Range(0, (1 << KS[curve]) - 1), coordinate_size=Const(cs), curve=Const(curve))
+
+
+@contract("spsdk.crypto.keys:PublicKeyEcc.export")
+def _(self: Union[ECCPUB(EccCurve.SECP256R1), ECCPUB(EccCurve.SECP384R1), ECCPUB(EccCurve.SECP521R1)], encoding: Const(SPSDKEncoding.NXP)) -> bytes:
+    returns(self.x.to_bytes(self.coordinate_size, "big") + self.y.to_bytes(self.coordinate_size, "big"), label="fixed-width-x-then-y")
+    ensures(len(result) == 2 * self.coordinate_size, label="twice-the-coordinate-size")
+    pure()
+    sample_with(lambda rnd: {"self": _ecc_pub(rnd), "encoding": SPSDKEncoding.NXP})
+
+
+def _ecc_pub(rnd):
+    from spsdk.crypto.keys import PrivateKeyEcc
+
+    return PrivateKeyEcc.generate_key(rnd.choice(list(CS))).get_public_key()
+
+
+@assumed("spsdk.crypto.keys:PublicKeyEcc.recreate", reason="builds the cryptography key object from the point (A-pki); stands for: a key with exactly these "
+         "coordinates on this curve (cryptography rejects points that are not on the curve: SPSDKValueError)")
+def _(cls: Const(PublicKeyEcc), coor_x: int, coor_y: int, curve: OneOf(EccCurve.SECP256R1, EccCurve.SECP384R1, EccCurve.SECP521R1)
+      ) -> Obj(PublicKeyEcc, x=int, y=int, curve=EccCurve, coordinate_size=int):
+    may_raise(SPSDKValueError)
+    ensures(result.x == coor_x and result.y == coor_y and result.curve == curve)
+    pure()
+
+
+@contract("spsdk.crypto.keys:PublicKeyEcc.recreate_from_data", replay=False)
+def _(cls: Const(PublicKeyEcc), data: Union[Bytes(64), Bytes(96), Bytes(132)], curve: OneOf(None, EccCurve.SECP256R1, EccCurve.SECP384R1, EccCurve.SECP521R1)
+      ) -> Opaque():
+    # raw X || Y of each supported curve: the curve is the one whose coordinate size is half the length, the halves are the coordinates
+    may_raise(SPSDKValueError)
+    let(cs=len(data) // 2)
+    raises(SPSDKUnsupportedEccCurve, curve is not None and CS[curve] != cs, label="explicit-curve-must-match-the-length")
+    ensures(result.x == int.from_bytes(data[:cs], "big") and result.y == int.from_bytes(data[cs:], "big"), label="halves-are-the-coordinates")
+    ensures(CS[result.curve] == cs, label="curve-picked-from-the-length")
+    pure()
+
+
+@lemma("raw-ecc-public-key-round-trips-for-all-coordinates-including-leading-zero-bytes")
+def _(curve: OneOf(EccCurve.SECP256R1, EccCurve.SECP384R1, EccCurve.SECP521R1), x: Nat, y: Nat):
+    requires(x < 2 ** (8 * CS[curve]) and y < 2 ** (8 * CS[curve]))
+    let(raw=x.to_bytes(CS[curve], "big") + y.to_bytes(CS[curve], "big"), cs=CS[curve])
+    ensures(int.from_bytes(raw[:cs], "big") == x and int.from_bytes(raw[cs:], "big") == y and len(raw) == 2 * cs, label="halves-decode-to-the-coordinates")
+
+
+def RSAPUB(bits):
+    return Obj(PublicKeyRsa, e=Const(65537), n=Range(1 << (bits - 1), (1 << bits) - 1))
+
+
+@contract("spsdk.crypto.keys:PublicKeyRsa.export")
+def _(self: Union[RSAPUB(2048), RSAPUB(3072), RSAPUB(4096)], encoding: Const(SPSDKEncoding.NXP), exp_length: OneOf(None, 3, 4), modulus_length: Const(None)) -> bytes:
+    let(nlen=256 if self.n < 2 ** 2048 else 384 if self.n < 2 ** 3072 else 512)
+    returns(self.n.to_bytes(nlen, "big") + (65537).to_bytes(exp_length if exp_length is not None else 3, "big"), label="modulus-then-exponent-minimal-widths")
+    pure()
+    sample_with(lambda rnd: {"self": _rsa_pub(rnd), "encoding": SPSDKEncoding.NXP, "exp_length": rnd.choice([None, 3, 4]), "modulus_length": None})
+
+
+_RSA_CACHE = {}
+
+
+def _rsa_pub(rnd):
+    from spsdk.crypto.keys import PrivateKeyRsa
+
+    bits = rnd.choice([2048, 2048, 3072])
+    if bits not in _RSA_CACHE:
+        _RSA_CACHE[bits] = PrivateKeyRsa.generate_key(bits).get_public_key()
+    return _RSA_CACHE[bits]
+
+
+@contract("spsdk.crypto.keys:PublicKeyRsa.recreate_public_numbers", replay=False)
+def _(data: Union[Bytes(259), Bytes(260), Bytes(387), Bytes(388), Bytes(515), Bytes(516), Bytes(258), Bytes(300)]) -> Opaque():
+    # modulus || exponent with a 3- or 4-byte exponent, for each supported key size; every other length is rejected
+    let(ks=256 if len(data) < 300 else 384 if len(data) < 400 else 512)
+    raises(SPSDKError, len(data) != ks + 3 and len(data) != ks + 4, label="other-lengths-are-rejected")
+    ensures(result.n == int.from_bytes(data[:ks], "big") and result.e == int.from_bytes(data[ks:], "big"), label="modulus-is-the-first-key-size-bytes")
+    pure()
+
+
+@lemma("raw-rsa-public-key-round-trips")
+def _(bits: OneOf(2048, 3072, 4096), n: Nat, elen: OneOf(3, 4)):
+    requires(n >= 2 ** (bits - 1) and n < 2 ** bits)
+    let(raw=n.to_bytes(bits // 8, "big") + (65537).to_bytes(elen, "big"))
+    let(back=PublicKeyRsa.recreate_public_numbers(raw))
+    ensures(back.n == n and back.e == 65537, label="modulus-and-exponent-come-back")
